@@ -48,6 +48,7 @@ type ViolationRec struct {
 	LogHash string            `json:"log_hash"`
 	Trace   []string          `json:"trace,omitempty"`
 	Tags    string            `json:"build_tags,omitempty"`
+	Prefix  []uint64          `json:"prefix_episode_seeds,omitempty"`
 	Shrunk  bool              `json:"shrunk,omitempty"`
 	OrigLen int               `json:"orig_tape_len,omitempty"`
 }
@@ -326,7 +327,7 @@ func selftest(dir, prop string, seed uint64, episodes, reps int) string {
 			go func() {
 				defer wg.Done()
 				code, se := runWorker(map[string]string{"VSIM_MODE": "explore", "VSIM_PROP": prop, "VSIM_SEED": fmt.Sprint(seed), "VSIM_COUNT": fmt.Sprint(episodes),
-					"VSIM_OUT": out, "VSIM_HASHES": "1", "VSIM_LOGS": "1", "VSIM_PROCS": fmt.Sprint(p), "VSIM_MAXVIOL": "1000"}, 10*time.Minute)
+					"VSIM_OUT": out, "VSIM_GC_EVERY": fmt.Sprint(gcEvery(prop)), "VSIM_HASHES": "1", "VSIM_LOGS": "1", "VSIM_PROCS": fmt.Sprint(p), "VSIM_MAXVIOL": "1000"}, 10*time.Minute)
 				ru := &run{procs: p}
 				if err := readJSON(out, &ru.res); err != nil {
 					mu.Lock()
@@ -431,7 +432,7 @@ func check(prop, tier string) int {
 				out := filepath.Join(dir, fmt.Sprintf("w%d-%d.json", w, round))
 				cur := filepath.Join(dir, fmt.Sprintf("w%d.cur", w))
 				code, se := runWorker(map[string]string{"VSIM_MODE": "explore", "VSIM_PROP": prop, "VSIM_SEED": fmt.Sprint(wseed), "VSIM_FROM": fmt.Sprint(from),
-					"VSIM_PARAMS": fmt.Sprintf(`{"tier":%q}`, tier), "VSIM_COUNT": "1000000000", "VSIM_BUDGET_MS": fmt.Sprint(left.Milliseconds()), "VSIM_OUT": out, "VSIM_CUR": cur}, left+3*time.Minute)
+					"VSIM_PARAMS": fmt.Sprintf(`{"tier":%q}`, tier), "VSIM_GC_EVERY": fmt.Sprint(gcEvery(prop)), "VSIM_COUNT": "1000000000", "VSIM_BUDGET_MS": fmt.Sprint(left.Milliseconds()), "VSIM_OUT": out, "VSIM_CUR": cur}, left+3*time.Minute)
 				var r Result
 				if err := readJSON(out, &r); err != nil {
 					// worker died mid-episode
@@ -661,6 +662,16 @@ func softInfraOnly(infra []string) bool {
 	return true
 }
 
+// gcEvery: how many episodes run between forced GCs (which empty sync.Pools).
+// Pool contents are the subject of C09 and matter to C13's buffer recycling: there every episode starts from empty pools.
+func gcEvery(prop string) int {
+	switch prop {
+	case "C09", "C13":
+		return 1
+	}
+	return 8
+}
+
 func keys(m map[string]bool) []string {
 	out := []string{}
 	for k := range m {
@@ -695,6 +706,15 @@ func shortHash(v *ViolationRec) string {
 // confirm shrinks a violation and verifies that it replays identically in two
 // fresh processes. Returns the confirmed record (with trace) or nil.
 func confirm(dir string, v *ViolationRec, tag string) (*ViolationRec, string) {
+	// most violations do not depend on what earlier episodes left in object pools:
+	// try the single episode first, keep the prefix only if it is needed
+	if len(v.Prefix) > 0 {
+		solo := *v
+		solo.Prefix = nil
+		if r, err := replayOnce(dir, &solo, tag+"solo"); err == nil && r.Oracle == v.Oracle {
+			v = &solo
+		}
+	}
 	cand := *v
 	if !strings.HasSuffix(v.Oracle, ".crash") && len(v.Tape) > 0 {
 		in := filepath.Join(dir, "shrink-in-"+tag+".json")
@@ -725,7 +745,7 @@ func confirm(dir string, v *ViolationRec, tag string) (*ViolationRec, string) {
 		if r1.Oracle != r2.Oracle || r1.LogHash != r2.LogHash || r1.Msg != r2.Msg {
 			return nil, fmt.Sprintf("two fresh-process replays differ: %s/%s vs %s/%s", r1.Oracle, r1.LogHash, r2.Oracle, r2.LogHash)
 		}
-		r1.Shrunk, r1.OrigLen, r1.Tags = c.Shrunk, c.OrigLen, tags
+		r1.Shrunk, r1.OrigLen, r1.Tags, r1.Prefix = c.Shrunk, c.OrigLen, tags, c.Prefix
 		return r1, ""
 	}
 	if r, _ := try(&cand); r != nil {
